@@ -110,7 +110,7 @@ impl Skel {
             };
             edges.push((*h, *t, cond));
         }
-        FnSpec { address: 0x4000, blocks, edges, entry: Some(self.entry), exit: Some(self.exit), gaps: self.gaps.clone() }
+        FnSpec { address: 0x4000, blocks, edges, entry: Some(self.entry), exit: Some(self.exit), gaps: self.gaps.clone(), index: None }
     }
 }
 
